@@ -54,3 +54,107 @@ pub fn as_dyn<T: Clone + 'static>(script: &Reference<Script<T>>) -> Reference<dy
 pub fn mk_dyn<T: Clone + 'static>(cur: Output<T, E>) -> Reference<dyn Getter<T, E>> {
     as_dyn(&mk(cur))
 }
+
+// ---------------------------------------------------------------- recording settable / updatable script
+
+use std::cell::RefCell;
+use std::rc::Rc;
+
+/// The observable part of a [`Rec`]. It is shared (`Rc<RefCell<_>>`) so that the harness can still read and
+/// steer a `Rec` after it has been moved into a wrapper.
+pub struct RecState<T> {
+    /// What `impl_set` returns from now on.
+    pub next: NothingOrError<E>,
+    /// The values `impl_set` accepted (i.e. was called with while `next` was `Ok`).
+    pub got: Vec<T>,
+    /// What `update` returns from now on (after following and counting).
+    pub upd: NothingOrError<E>,
+    /// How many times `update` got past `update_following_data`.
+    pub nupd: usize,
+    /// The real `get_last_request()` of this `Rec`, read right after the `update_following_data()` of its most
+    /// recent `update()`. Current whenever the `Rec` is only ever `set` through following (the case for the motor
+    /// inside a `PIDWrapper`, where the harness cannot reach the `Rec` itself any more).
+    pub last: Option<T>,
+}
+/// `Settable<T, u8>` of PROTOCOL.md: `impl_set` records the value only when `next` is `Ok` and returns `next`;
+/// `update` = `self.update_following_data()?; nupd += 1; upd`.
+pub struct Rec<T> {
+    data: SettableData<T, E>,
+    pub st: Rc<RefCell<RecState<T>>>,
+}
+impl<T> Rec<T> {
+    pub fn new() -> Self {
+        Rec {
+            data: SettableData::new(),
+            st: Rc::new(RefCell::new(RecState {
+                next: Ok(()),
+                got: Vec::new(),
+                upd: Ok(()),
+                nupd: 0,
+                last: None,
+            })),
+        }
+    }
+}
+impl<T: Clone> Settable<T, E> for Rec<T> {
+    fn impl_set(&mut self, value: T) -> NothingOrError<E> {
+        let mut st = self.st.borrow_mut();
+        if st.next.is_ok() {
+            st.got.push(value);
+        }
+        st.next
+    }
+    fn get_settable_data_ref(&self) -> &SettableData<T, E> {
+        &self.data
+    }
+    fn get_settable_data_mut(&mut self) -> &mut SettableData<T, E> {
+        &mut self.data
+    }
+}
+impl<T: Clone> Updatable<E> for Rec<T> {
+    fn update(&mut self) -> NothingOrError<E> {
+        let followed = self.update_following_data();
+        let last = self.get_last_request();
+        self.st.borrow_mut().last = last;
+        followed?;
+        let mut st = self.st.borrow_mut();
+        st.nupd += 1;
+        st.upd
+    }
+}
+
+/// The shared part of a [`ScriptU`].
+pub struct ScriptUState<T> {
+    pub cur: Output<T, E>,
+    /// What `update` returns from now on.
+    pub upd: NothingOrError<E>,
+    /// How many times `update` was called.
+    pub nupd: usize,
+}
+/// A `Script` whose `update()` returns a scripted `NothingOrError` and counts its calls; state shared as for `Rec`.
+pub struct ScriptU<T> {
+    pub st: Rc<RefCell<ScriptUState<T>>>,
+}
+impl<T> ScriptU<T> {
+    pub fn new(cur: Output<T, E>) -> Self {
+        ScriptU {
+            st: Rc::new(RefCell::new(ScriptUState {
+                cur,
+                upd: Ok(()),
+                nupd: 0,
+            })),
+        }
+    }
+}
+impl<T: Clone> Getter<T, E> for ScriptU<T> {
+    fn get(&self) -> Output<T, E> {
+        self.st.borrow().cur.clone()
+    }
+}
+impl<T> Updatable<E> for ScriptU<T> {
+    fn update(&mut self) -> NothingOrError<E> {
+        let mut st = self.st.borrow_mut();
+        st.nupd += 1;
+        st.upd
+    }
+}
